@@ -244,4 +244,13 @@ def r6_stake_commitment(ctx):
     r.check(len(s) == 1 and "get_tree(Database::new(" in s[0] and ("[0; 32]" in s[0] or "default" in s[0].lower().split("get_tree(")[-1]), "empty-tree", "starts from the empty tree", "tree starts as %s" % s)
 
 
-RULES = [r1_header_map, r2_chain_step, r3_network_write_once, r4_key_agreement, r5_tx_commitment, r6_stake_commitment]
+def shared(ctx):
+    """'the coin root is a function of the contents alone': the coin tree holds the coins plus the per-covenant counts, so the count protocol (C20.R1: +1/−1 exactly on
+    real insertions/removals, a zero count is *no entry*) and the confinement of tree writes to it (C20.R2) are necessary; so is order-independence of a batch (C03.R2)."""
+    from rules.engine import core
+    from rules.props import c20, c03
+    core.import_rules(ctx, [c20.r1_protocol, c20.r2_confinement], "X20")
+    core.import_rules(ctx, [c03.r2_batch_commutativity], "X03")
+
+
+RULES = [r1_header_map, r2_chain_step, r3_network_write_once, r4_key_agreement, r5_tx_commitment, r6_stake_commitment, shared]
